@@ -161,7 +161,11 @@ func cmdCheck(args []string) {
 		if r.TS != nil {
 			tsr = r.TS
 		}
-		V.Solver.Discharge(tsr, r.Obls, timeout, false)
+		tmo := timeout
+		if r.TS != nil && tmo < 60 {
+			tmo = 60 // bit-vector / floating-point goals: seconds, not milliseconds; a generous limit keeps them stable under load
+		}
+		V.Solver.Discharge(tsr, r.Obls, tmo, false)
 		for _, o := range r.Obls {
 			obTS[o] = tsr
 		}
